@@ -234,6 +234,28 @@ func scRBF(w *World) {
 	w.mine(w.pooled())
 }
 
+// a replacement that spends an output of the very chain it replaces (Core: "replacement-adds-unconfirmed" /
+// "bad-txns-spends-conflicting-tx"): a <- b, then c spends a's confirmed input and b's output
+func scRBFOwnDescendant(w *World) {
+	fc := w.freeCoins(true)
+	a := w.spend(fc[:1], 1, 3000, nil, false)
+	w.submit(a, "net")
+	b := w.spend(a.outs[:1], 1, 2000, nil, false)
+	w.submit(b, "net")
+	c := w.spend([]*chainkit.Coin{fc[0], b.outs[0]}, 1, 60000, nil, false)
+	w.submit(c, "net")
+	// the same through the trusted and the local path
+	a2 := w.spend(fc[1:2], 2, 3000, nil, false)
+	w.submit(a2, "net")
+	c2 := w.spend([]*chainkit.Coin{fc[1], a2.outs[1]}, 1, 60000, nil, false)
+	w.submit(c2, "trusted")
+	a3 := w.spend(fc[2:3], 2, 3000, nil, false)
+	w.submit(a3, "net")
+	c3 := w.spend([]*chainkit.Coin{a3.outs[0], fc[2]}, 1, 60000, nil, false)
+	w.submit(c3, "local")
+	w.mine(w.pooled())
+}
+
 func flipKind(w *World, scr []byte) []byte {
 	if len(scr) == 22 {
 		return w.key.P2PKH()
@@ -442,6 +464,18 @@ func scRandom(steps int, withBig bool) func(w *World) {
 				if len(conf) > 0 && w.g.Chance(1, 3) {
 					coins = append(coins, w.pickCoins(conf, 1)...)
 				}
+				if w.g.Chance(1, 4) { // ... and an unspent output of a pooled tx: the victim's own, a descendant's, or an unrelated one
+					var po []*chainkit.Coin
+					for _, c := range free {
+						if c.Height == 0 {
+							po = append(po, c)
+						}
+					}
+					if len(po) > 0 {
+						coins = append(coins, w.pickCoins(po, 1)...)
+						w.r.Hit("gen:replacement-spends-pooled-output")
+					}
+				}
 				var fee uint64
 				if t2s := txpool.TransactionsToSend[v.tx.Hash.BIdx()]; t2s != nil {
 					fee = t2s.Fee
@@ -578,6 +612,7 @@ func scenarios(r *vlib.Run) []scenario {
 		{"corpus:chains-diamonds", scChainsDiamonds, false},
 		{"corpus:dup-input", scDupInput, false},
 		{"corpus:rbf", scRBF, false},
+		{"corpus:rbf-own-descendant", scRBFOwnDescendant, false},
 		{"corpus:rbf-final", scChainsDiamonds, true},
 		{"corpus:orphans", scOrphans, false},
 		{"corpus:orphan-bad-vout", scOrphanBadVout, false},
